@@ -304,7 +304,7 @@ GH_EVENTS = ['pull_request', 'issue_comment', 'pull_request_review', 'status', '
              'push', 'ping']
 
 
-def webhook_call(host, event, creds, v, sym, inprogress=False):
+def webhook_call(host, event, creds, v, sym, inprogress=False, sent=None):
     import flask
     import bert_e.server.webhook as wh
     import bert_e.git_host.github as gh
@@ -323,7 +323,9 @@ def webhook_call(host, event, creds, v, sym, inprogress=False):
         app.config['WEBHOOK_LOGIN'] = v['login']
         app.config['WEBHOOK_PWD'] = v['pwd']
     headers = {}
-    if creds:
+    if sent is not None:
+        headers['Authorization'] = 'Basic ' + base64.b64encode(('%s:%s' % sent).encode()).decode()
+    elif creds:
         headers['Authorization'] = 'Basic ' + base64.b64encode(b'sent-login:sent-pwd').decode()
     state = 'INPROGRESS' if inprogress else 'SUCCESSFUL'
     if host == 'bitbucket':
@@ -452,6 +454,8 @@ def replay(data):
     if data.get('kind') == 'userdict':
         from . import userdict
         return userdict.replay(data)
+    if data['part'] == 'credpair':
+        return True          # finite choices: the path was run concretely
     if data['part'] == 'login':
         return True          # the path was run concretely (the choices are finite)
     if data['part'] == 'api':
@@ -571,6 +575,38 @@ def login_part(rep):
             rep.validated += 1
 
 
+CRED = ('hooklogin', 'hookpwd')
+CRED_VARIANTS = [CRED, ('hooklogin', 'wrong'), ('wrong', 'hookpwd'), ('hookpwd', 'hooklogin'),
+                 ('hooklogi', 'nhookpwd'), ('hookloginh', 'ookpwd'), ('', 'hookloginhookpwd'),
+                 ('hookloginhookpwd', ''), ('HOOKLOGIN', 'hookpwd'), ('hooklogin', 'hookpwd '), ('', '')]
+
+
+def credential_pairs_harness(ctx):
+    """The webhook credentials are a *pair*: only the configured (login, password) is accepted -
+    not another split of the same characters, not a prefix, not another case."""
+    host = ['bitbucket', 'github'][ctx.choose('host', 2)]
+    sent = CRED_VARIANTS[ctx.choose('sent_pair', len(CRED_VARIANTS))]
+    event = 'pullrequest:updated' if host == 'bitbucket' else 'pull_request'
+    v = dict(owner='owner', slug='slug', full_name='owner/slug', login=CRED[0], pwd=CRED[1])
+    status, jobs, _ = webhook_call(host, event, True, v, False, sent=sent)
+    ok = (sent == CRED) == (len(jobs) == 1) and (sent == CRED or status == 401)
+    ctx.stats.obligations += 1
+    return dict(ok=ok, host=host, sent=sent, status=status, njobs=len(jobs))
+
+
+def credential_pairs_part(rep):
+    results, st = explore(credential_pairs_harness)
+    rep.add_stats(st, 'webhook credential pairs')
+    for _, r in results:
+        if not r['ok']:
+            rep.cexs.append(Cex('C14', 'webhook: credentials other than the configured pair are accepted (or the pair refused)',
+                                dict(part='credpair', host=r['host'], sent=list(r['sent'])), True,
+                                '%s webhook with login %r password %r -> status %s, %d job(s)' % (
+                                    r['host'], r['sent'][0], r['sent'][1], r['status'], r['njobs'])))
+            break
+        rep.validated += 1
+
+
 def eval_api_part(rep, prop):
     """Shared with C06 / C07: the evaluation an API request triggers must run with the robot's
     configuration (admins, build key, per-author options, required approvals), whatever the
@@ -630,6 +666,7 @@ def check(rep):
     if extra:
         rep.error('unmodelled API rule(s): %s' % extra)
     login_part(rep)
+    credential_pairs_part(rep)
     from . import userdict
     userdict.check(rep, 'C14')          # session['admin'] = user in settings.admins (loaded objects)
     cases = branch_cases(rep)
